@@ -306,6 +306,11 @@ def run(prog, rep, tier):
             return False
         a0 = b.term.args[0]
         ok = a0.place is not None and must_derive_ip(prog, body, a0.place[0], is_can2) and bool(can)
+        if not ok and body.kind == 'Closure' and a0.place is not None:
+            # the per-member work sits in a closure (iterator chain over the member names): the directory is a captured variable of the enclosing function
+            parent_ = prog.body(body.pkg, body.defpath.rsplit('::{closure#', 1)[0])
+            if parent_ is not None:
+                ok = must_derive_captured(prog, parent_, body, a0.place[0], lambda k_, ob_, b3_: k_ == 'call' and cnorm(ob_) == 'std::fs::canonicalize', extra_transparent=('as_path', 'as_ref', 'deref', 'borrow'))
         rep.ob('R16.3', ok, 'R16.3|%s|create_file-dir-canonical' % body.nkey, 'output directory handed to create_file is fs::canonicalize(..)' if ok else 'create_file called with a directory that is not canonicalized', body.loc(b.idx))
     # FileWriter aggregates
     fws = []
@@ -324,6 +329,16 @@ def run(prog, rep, tier):
             continue
         op = s.rv.ops[s.rv.j['fields'].index('path')]
         ok = op.place is not None and must_derive(body, op.place[0], lambda k, ob, b3: k == 'call' and cnorm(ob) == 'create_file')
+        if not ok and body.kind == 'Closure' and op.place is not None and must_derive(body, op.place[0], lambda k, ob, b3: k == 'param' and ob == 2):
+            # `create_file(..)...map(|(_file, path)| FileWriter { path, .. })`: the closure's argument is the value create_file returned
+            parent_ = prog.body(body.pkg, body.defpath.rsplit('::{closure#', 1)[0])
+            if parent_ is not None:
+                for pc in parent_.calls():
+                    if pc.term.cmethod in ('map', 'and_then', 'map_or', 'map_or_else') and len(pc.term.args) >= 2:
+                        ce_ = expr_of(parent_, pc.term.args[-1])
+                        if ce_[0] == 'agg' and ce_[3].j.get('closure') == body.defpath and pc.term.args[0].place is not None:
+                            ok = must_derive(parent_, pc.term.args[0].place[0], lambda k, ob, b3: k == 'call' and cnorm(ob) == 'create_file',
+                                             extra_transparent=('transpose', 'branch', 'ok', 'unwrap', 'expect'))
         rep.ob('R16.3', ok, 'R16.3|%s|FileWriter.path-from-create_file' % body.nkey, 'FileWriter.path is the vetted path returned by create_file' if ok else 'FileWriter.path does not come from create_file', body.loc(bb, i))
     fw = one_body(prog, rep, 'R16.3', 'mlar', adt='FileWriter', name='write', trait='std::io::Write')
     if fw is not None:
